@@ -700,9 +700,15 @@ func c14Entry(t *testing.T, prop string) {
 	if prop == "C15" {
 		defer c15Witness(t, run)
 	}
-	n := run.N(18, 72)
-	run.Cases("e2e-"+prop, n, func(i int, rng *verifkit.Rand) {
-		cfg := c14GenCfg(rng, run.Thorough())
+	if prop == "C14" {
+		defer c14Stream(t, run, prop, "e2e-C14-slowssh", run.N(4, 12), func(rng *verifkit.Rand) c14RunCfg { return c14SlowSSHCfg(rng) })
+	}
+	c14Stream(t, run, prop, "e2e-"+prop, run.N(18, 72), func(rng *verifkit.Rand) c14RunCfg { return c14GenCfg(rng, run.Thorough()) })
+}
+
+func c14Stream(t *testing.T, run *verifkit.Run, prop, stream string, n int, gen func(rng *verifkit.Rand) c14RunCfg) {
+	run.Cases(stream, n, func(i int, rng *verifkit.Rand) {
+		cfg := gen(rng)
 		run.Input(cfg, true)
 		res := c14RunE2E(prop, cfg)
 		run.Eval(res.evals[prop])
@@ -734,7 +740,7 @@ func c14Entry(t *testing.T, prop string) {
 		if i < 2 {
 			run.Sample(cfg)
 		}
-		t.Logf("%s run %d: containers=%d starts=%d events=%d findings=%d inconclusive=%v feature=%s", prop, i, cfg.Containers, res.starts, res.events, len(res.findings), res.inconcl, res.feature)
+		t.Logf("%s %s run %d: containers=%d starts=%d events=%d findings=%d inconclusive=%v feature=%s", prop, stream, i, cfg.Containers, res.starts, res.events, len(res.findings), res.inconcl, res.feature)
 	})
 }
 
